@@ -48,8 +48,8 @@ ASSUMPTIONS = [
     'other shapes are outside the model',
     'dataTop: categoryFields are strings',
     'dataParseCSV: csv.DictReader record splitting/quoting (skipinitialspace) and str.splitlines are trusted base: the model starts from the split '
-    'cells; records are rectangular or short (no surplus cells: they would create a None key); header names are pairwise different; cell strings '
-    'contain no line separator other than \\n (splitlines + the csv reader normalise \\r, \\x0b, \\x0c, \\x1c-\\x1e, \\x85, \\u2028, \\u2029 to \\n)',
+    'cells; records are rectangular or short (no surplus cells: they would create a None key); header names are pairwise different; the harness '
+    'writer quotes cells containing , " CR LF or a leading space (other str.splitlines separators such as \\x0b or \\u2028 are not generated)',
     'value_parse_number = C13 model NumText.numberParseFloat (exact rational, the double is its correct rounding: the harness rounds); '
     'value_parse_datetime = C16 model Datetime.isoParse over a fixed-offset zone (the csv stream runs under TZ=UTC, thorough also Etc/GMT+5, Etc/GMT-3)',
 ]
@@ -967,7 +967,7 @@ def stream_key(ctx):
 DATELIKE = ['2024-02-30', '2024-13-01', '2024-01-01T25:00:00Z', '2023-02-29', '2024-00-10', '2024-01-00', '0000-01-01', '2024-01-01T00:60:00Z',
             '2024-01-01T00:00:60Z', '2024-01-01T00:00:00+24:00', '2024-04-31', '2024-01-01T00:00:00', '2024-1-1', '2024-01-01 00:00:00Z',
             '2024-01-01T00:00:00.1234567Z', '2024-01-01T00:00:00+0530']
-STRINGS = ['abc', 'a,b', 'say "hi"', '"', 'x y', ' lead', 'trail ', 'a\nb', 'né', '€', 'NULL', 'True', 'nul', '1a', 'e5', '-', '.', '1,5', '1 2',
+STRINGS = ['abc', 'a,b', 'say "hi"', '"', 'x y', ' lead', 'trail ', 'a\nb', 'a\r\nb', 'l1\nl2\n', '\n', 'né', '€', 'NULL', 'True', 'nul', '1a', 'e5', '-', '.', '1,5', '1 2',
            '0x10', 'tru', ',', '""', "it's", 'a.0,', ']', '#', 'nan', 'inf', '-inf', 'Infinity', '1_0'] + DATELIKE
 NUMLIKE = ['1', '1.5', '-2', '1e3', ' 7', '7 ', '+3', '.5', '5.', '1_000', '0', '1E-2', '٣', '1e400', '00', '-0']
 BOOLLIKE = ['true', 'false']
@@ -983,11 +983,11 @@ def csv_quote(text):
     return '"' + text.replace('"', '""') + '"'
 
 
-def write_csv(header, records):
+def write_csv(header, records, eol='\n'):
     lines = [','.join(csv_quote(h) for h in header)]
     for rec in records:
         lines.append(','.join(csv_quote(c) for c in rec))
-    return '\n'.join(lines)
+    return eol.join(lines)
 
 
 def cell_text(v, null_text, date_only=False):
@@ -1166,12 +1166,13 @@ def gen_csv_case(rng, off):
     if short and records:
         r = rng.randrange(len(records))
         records[r] = records[r][:rng.randint(1, ncols - 1)]
-    text = write_csv(header, records)
-    lines = text.split('\n') if '\n' not in ''.join(''.join(r) for r in records) else None
+    eol = rng.choice(['\n', '\n', '\r\n'])
+    text = write_csv(header, records, eol) + (eol if rng.random() < 0.3 else '')
+    lines = text.split(eol) if not any(ch in ''.join(''.join(r) for r in records) for ch in '\r\n') else None
     chunks = [text]
     if lines is not None and len(lines) > 1 and rng.random() < 0.5:
         cut = sorted(rng.sample(range(1, len(lines)), min(len(lines) - 1, rng.randint(1, 3))))
-        chunks = ['\n'.join(lines[a:b]) for a, b in zip([0] + cut, cut + [len(lines)])]
+        chunks = [eol.join(lines[a:b]) for a, b in zip([0] + cut, cut + [len(lines)])]
         if rng.random() < 0.3:
             chunks.insert(rng.randint(0, len(chunks)), None)
     return {'header': header, 'records': records, 'typed': typed, 'chunks': chunks, 'off': off, 'short': short}
@@ -1182,7 +1183,7 @@ def split_cells(case):
     lines = []
     for chunk in case['chunks']:
         if chunk is not None:
-            lines.extend(chunk.splitlines())
+            lines.extend(chunk.splitlines(keepends=True))     # line separators inside quoted cells are kept (F26)
     rd = csv.reader(lines, skipinitialspace=True)
     rows = [r for r in rd]
     if not rows:
